@@ -28,6 +28,11 @@ type Clause struct {
 	Star bool // modifies *
 }
 
+type HandledClause struct {
+	Field string
+	By    []string
+}
+
 type Contract struct {
 	Key        string // e.g. codec.V2.ReadHeaderWithValidation, sharding.GenerateShards
 	Props      []string
@@ -68,7 +73,9 @@ type Contract struct {
 	ReleasesLock bool      // releaseslock: no return with a sync mutex taken in the function still held
 	Forbids    []string    // forbids A, B: the function calls none of these (it runs with a lock they take)
 	NoReentrantLock bool   // noreentrantlock: no call of a locking method of the same receiver while the mutex may be held
+	Handled    []HandledClause // received F handledby A, B: every value taken from channel field F reaches a call of A or B
 	HasErrorsFrom bool
+	UsesAtCall bool // some clause mentions atcall(...): call-site states are recorded
 	RecvNonNil bool
 	Params     []string // optional explicit parameter names (for externals)
 	Results    []string
@@ -326,6 +333,22 @@ func ParseSpecFile(path string, pkgName string) (*SpecFile, error) {
 					cur.Forbids = append(cur.Forbids, n)
 				}
 			}
+		case "received":
+			// received F handledby A, B: every value the function takes from the channel
+			// held in field F is passed to a call of A or B on every path, before the
+			// function returns or takes the next value from that channel
+			parts := strings.SplitN(rest, "handledby", 2)
+			if len(parts) != 2 || strings.TrimSpace(parts[0]) == "" {
+				errs = append(errs, fmt.Sprintf("%s:%d: received <field> handledby <callee>, ...", path, ln))
+			} else {
+				hc := HandledClause{Field: strings.TrimSpace(parts[0])}
+				for _, n := range strings.Split(parts[1], ",") {
+					if n = strings.TrimSpace(n); n != "" {
+						hc.By = append(hc.By, n)
+					}
+				}
+				cur.Handled = append(cur.Handled, hc)
+			}
 		case "releaseslock":
 			// no path returns while a sync.Mutex / RWMutex write lock that the function
 			// took (not through defer) is still held
@@ -407,6 +430,9 @@ func addClause(c *Contract, kind string, loop int, text, file string, line int) 
 		return addClause(cb, parts[2], 0, text, file, line)
 	}
 	cl := &Clause{Kind: kind, Loop: loop, Text: text, File: file, Line: line}
+	if strings.Contains(text, "atcall(") {
+		c.UsesAtCall = true
+	}
 	switch kind {
 	case "reads":
 		t := strings.TrimSpace(text)
